@@ -1591,6 +1591,33 @@ void recursive_cases(char const *tname, std::vector<T> const &values)
       ma = std::move(mv);
       if (!(ma.get() == v))
         viol("move-assignment/wrong-value", "");
+      // a moved-from wrapper (a and mv by now) can be assigned to again and then exposes exactly the assigned object
+      // (what std::vector does with its elements on insert / erase / assignment)
+      a = r;
+      if (!(a.get() == v) || &a.get() == &r.get())
+        viol("copy-assignment-to-moved-from/wrong-value-or-shared", "");
+      mv = fcppt::recursive<T>(w);
+      if (!(mv.get() == w))
+        viol("move-assignment-to-moved-from/wrong-value", "");
+      {
+        std::vector<fcppt::recursive<T>> vec;
+        vec.reserve(8);
+        vec.emplace_back(v);
+        vec.emplace_back(w);
+        vec.insert(vec.begin(), 3, fcppt::recursive<T>(w)); // shifts by move, then copy-assigns into moved-from slots
+        bool good = vec.size() == 5 && vec[3].get() == v && vec[4].get() == w;
+        for (std::size_t q = 0; q < 3 && good; ++q)
+          good = vec[q].get() == w;
+        std::vector<fcppt::recursive<T>> other;
+        other.emplace_back(v);
+        other.emplace_back(v);
+        vec.erase(vec.begin()); // moves down, destroys the moved-from tail
+        vec = other;            // copy-assigns over live elements, destroys the rest
+        good = good && vec.size() == 2 && vec[0].get() == v && vec[1].get() == v && &vec[0].get() != &other[0].get();
+        if (!good)
+          viol("in-a-vector/insert-erase-assign", "elements of a std::vector<recursive> after insert(n copies) / erase / copy assignment");
+      }
+      VF_COUNT("wrappers/recursive-assigned-after-move");
       if (!(fcppt::make_recursive(v).get() == v))
         viol("make_recursive/wrong-value", "");
       // comparison forwards to the wrapped values
